@@ -389,7 +389,9 @@ def _flat_map_splice(ctx: Ctx, rep: Report, f: Func, q: str) -> bool:
 
 def splice_rule(ctx: Ctx, rep: Report, q: str, rid: str = "R19.4") -> None:  # noqa: C901
     rep.rule(rid)
-    f = ctx.func(q)
+    from .normalise import normalised as _norm
+
+    f = _norm(ctx, ctx.func(q), "ifexp")  # `x = A if C else B` is two paths
     cfg = ctx.cfg(f)
     loops = [n for n in cfg.live if n.kind == "for" and src(n.ast.iter) in ("self._items", "self.items")]
     rep.instance()
@@ -545,6 +547,11 @@ def run(ctx: Ctx, rep: Report, tier: str) -> None:
     from .c16 import nested_data_plumbing
 
     nested_data_plumbing(ctx, rep, rid="R19.6")
+    from .c16 import r16_7
+
+    sub7 = Report("C19")
+    r16_7(ctx, sub7)
+    rep.absorb(sub7, "R19.6")
     from .c09 import splitter_vocabulary
 
     sub = Report("C19")
